@@ -287,7 +287,28 @@ def _module_literals(tree):
                 vals[st.targets[0].id] = v
             elif st.targets[0].id not in KNOWN_GLOBALS and not st.targets[0].id.startswith("__") and _const_expr(v):
                 # constants introduced after the rules were written (hoisted literals, tables, format strings): same program as the literal
-                vals[st.targets[0].id] = v
+                # - provided the object cannot be modified through the name: immutable values always; a list / dict only when every use
+                # in this module hands it to a call as an argument, iterates over it or tests membership (a module-level table that is
+                # written is persistent state, which C18 must keep seeing)
+                nm_ = st.targets[0].id
+                mutable = any(isinstance(x, (ast.List, ast.Dict, ast.Set)) for x in ast.walk(v))
+                if mutable:
+                    par = {}
+                    for n_ in ast.walk(tree):
+                        for c_ in ast.iter_child_nodes(n_):
+                            par[id(c_)] = n_
+                    ok_ = True
+                    for n_ in ast.walk(tree):
+                        if isinstance(n_, ast.Name) and n_.id == nm_ and isinstance(n_.ctx, ast.Load):
+                            p_ = par.get(id(n_))
+                            readonly = (isinstance(p_, ast.Call) and n_ in p_.args) or (isinstance(p_, ast.keyword)) or \
+                                (isinstance(p_, (ast.For, ast.comprehension)) and p_.iter is n_) or \
+                                (isinstance(p_, ast.Compare) and n_ in p_.comparators and isinstance(p_.ops[0], (ast.In, ast.NotIn)))
+                            if not readonly:
+                                ok_ = False
+                    if not ok_:
+                        continue
+                vals[nm_] = v
     for n in ast.walk(tree):
         if isinstance(n, (ast.Global, ast.Nonlocal)):
             for x in n.names:
